@@ -36,6 +36,8 @@ BUILT = {
          "The order theorems for numbers assume NumOrder (< is a strict weak order on finite numbers: an IEEE 754 fact about float64 that is not proved for the PrimFloat instance); 'to_string output decodes back to the argument' is checked by the run (Go-side round trip and model/library comparison), not proved. Full function x typed-universe matrix, standalone and nested, runs through library, model and specification."),
  "C19": ("Theorems about the model of run() (Model/Cli.v: argument count, Parse, input channel, json.Unmarshal, Search, MarshalIndent, Println, status): valid expression + valid input + successful Search => standard output is exactly the indented JSON text of the library's result plus a newline, status 0; status 0 only then; every failure (invalid expression, unreadable or invalid input, evaluation error, unserialisable result, wrong argument count) => status 1 and empty standard output; both channels interchangeable; never a panic; under C16's proviso the result is always serialisable. Tie: the built jpgo binary is run on generated (expression, input, channel) triples and its status and standard output are compared byte for byte with the model's, and with the library called directly.",
          "Not modelled: the text on standard error, the flag package (-ast, option parsing), real file system and pipe behaviour (a read either delivers the bytes or fails). MarshalIndent is modelled (encoding/json is standard library: modelled, not verified)."),
+ "C14": ("Theorems (via tokenize_view: the cursor lexer of Model/Lexer.v equals a lexer over the remaining input, for all bytes): a string is read as one unquoted identifier spanning the input iff it matches [A-Za-z_][A-Za-z0-9_]* (character classes = the bit masks regenerated from lexer.go); for every sequence of Unicode scalar values the quoted identifier in json.Marshal's spelling is one token holding exactly the string and Search selects exactly that member (JSON string escape/unescape round trip, UTF-8 decode-of-encode); any other spelling whose quotes and backslashes are escaped denotes its JSON decoding; for EVERY byte string without a backslash before a quote or at the end the raw literal with ' written as \\' denotes exactly it; a JSON text between backticks with ` as \\` is one literal token holding the text, denoting json.Unmarshal of it.",
+         "PARTIAL: (1) 'the backtick literal of the JSON text of v denotes exactly v' needs json.Unmarshal(json.Marshal v) = v, which is proved for strings but not for whole values (numbers need a print/parse law of float formatting) - checked by the run on generated values incl. adversarial spellings; (2) 'whitespace between tokens is insignificant' for whole expressions is checked by the run (C03 family: every tree in minimal and randomly spaced spelling gives the same AST), not proved."),
  "C16": ("Theorems: Search on any expression text and any JSON document returns, when it succeeds, a value with no expression reference and only well-formed string-keyed objects (unconditional, any number type incl. binary64); all its numbers are finite under the property's no-overflow proviso (NoOverflow: abs, ceil, floor, length conversion, addition and division by a length preserve finiteness - satisfiable, shown for exact arithmetic); to_number and JSON literals yield finite numbers or null/error, avg of nothing is null; JSON data is always serialisable.",
          "PARTIAL for the last clause: 'serialise and read back an equal value' is not a theorem (needs a print/parse round-trip law of float formatting); the harness does the json.Marshal/Unmarshal round trip and a nil-vs-empty type walk on the real result of every generated call. NoOverflow is a hypothesis on the number operations as a whole, so for binary64 the finiteness half is a theorem only about evaluations of a number type in which sums cannot overflow; on binary64 itself finiteness is checked by the run."),
  "C10": ("Theorems: the dispatcher of functions.go (regenerated table, resolveArgs/typeCheck, 26 handlers with unchecked assertions) equals the specification's call for every name and argument list; ill-typed / wrong arity / unknown => error; inconsistent by-keys => error at any length; evaluation never panics.",
